@@ -650,3 +650,51 @@ const K_MAX_INITIAL_CONGESTION_WINDOW: u64 = 200;
 
 const PROBE_RTT_BASED_ON_BDP: bool = true;
 const DRAIN_TO_TARGET: bool = true;
+
+/// Verification probe (compiled only with `--cfg quinn_rs_quinn_verif`): read-only snapshot of
+/// the state that determines `window()`, for the relational correspondence of `cc_bbr`.
+#[cfg(quinn_rs_quinn_verif)]
+impl Bbr {
+    pub(crate) fn verif_state(&self, base: Instant) -> Vec<i128> {
+        let rel = |t: Option<Instant>| -> i128 {
+            t.map_or(-1, |t| t.saturating_duration_since(base).as_micros() as i128)
+        };
+        vec![
+            self.window() as i128,
+            match self.mode {
+                Mode::Startup => 0,
+                Mode::Drain => 1,
+                Mode::ProbeBw => 2,
+                Mode::ProbeRtt => 3,
+            },
+            match self.recovery_state {
+                RecoveryState::NotInRecovery => 0,
+                RecoveryState::Conservation => 1,
+                RecoveryState::Growth => 2,
+            },
+            self.cwnd as i128,
+            self.recovery_window as i128,
+            self.min_cwnd as i128,
+            self.init_cwnd as i128,
+            self.is_at_full_bandwidth as i128,
+            self.max_bandwidth.get_estimate() as i128,
+            self.min_rtt.as_micros() as i128,
+            self.round_count as i128,
+            self.ack_aggregation.max_ack_height.get() as i128,
+            self.get_target_cwnd(0.75) as i128,
+            self.get_target_cwnd(1.0) as i128,
+            self.get_target_cwnd(self.cwnd_gain) as i128,
+            (self.cwnd_gain == K_DERIVED_HIGH_CWNDGAIN) as i128,
+            self.acked_bytes as i128,
+            self.loss_state.lost_bytes as i128,
+            self.max_sent_packet_number as i128,
+            self.max_acked_packet_number as i128,
+            self.end_recovery_at_packet_number as i128,
+            self.current_round_trip_end_packet_number as i128,
+            self.bw_at_last_round as i128,
+            self.round_wo_bw_gain as i128,
+            rel(self.exit_probe_rtt_at),
+            rel(self.probe_rtt_last_started_at),
+        ]
+    }
+}
